@@ -1,9 +1,10 @@
 //! `real lock`: T threads repeatedly create an injector (installing a thread-specific fake on one shared
 //! function) or a preventer, call the shared function, and let go by scope exit or by panic.
+//! One holder in six also installs a counted fake it never calls, so that its (normal) scope exit panics in call-count verification.
 //! Every event gets a global sequence number; a holder counter is raised right after acquiring and
 //! lowered right before letting go (a sub-interval of the true critical section: no false alarms).
 //! input: <id> <threads> <iters> <seed> <slow-us>
-use crate::{interpose, util};
+use crate::{hist, interpose, targets, util};
 use injectorpp::interface::injector::*;
 use std::panic::{catch_unwind, AssertUnwindSafe};
 use std::sync::atomic::{AtomicI64, AtomicU64, Ordering::SeqCst};
@@ -39,6 +40,7 @@ fn one(line: &str) -> String {
                 let as_injector = rng.next() % 2 == 0;
                 let by_panic = rng.next() % 4 == 0;
                 let ncalls = (rng.next() % 3) as usize;
+                let unmet = rng.next() % 6 == 0;       // the holder also installs a counted fake it never calls: scope exit panics in verification
                 let pause = rng.next() % 5;
                 let r = catch_unwind(AssertUnwindSafe(|| {
                     if as_injector {
@@ -48,6 +50,7 @@ fn one(line: &str) -> String {
                         log.push((SEQ.fetch_add(1, SeqCst), format!("call:{}", call_shared())));
                         inj.when_called(injectorpp::func!(fn (shared)(u64) -> u64)).will_execute_raw(lk(ti));
                         log.push((SEQ.fetch_add(1, SeqCst), "inst".into()));
+                        if unmet { let tf: fn(u64) -> u64 = targets::r1; inj.when_called(injectorpp::func!(fn (tf)(u64) -> u64)).will_execute(hist::site(2)); }
                         for _ in 0..=ncalls {
                             if pause == 0 { std::thread::yield_now(); } else if pause == 1 { std::thread::sleep(std::time::Duration::from_micros(50)); }
                             log.push((SEQ.fetch_add(1, SeqCst), format!("call:{}", call_shared())));
@@ -93,6 +96,7 @@ pub fn main(_args: &[String]) {
         let l = line.trim().to_string();
         if l.is_empty() { continue; }
         let id = l.split_whitespace().next().unwrap().to_string();
+        util::DEADLINE_SECS.store(l.split_whitespace().nth(5).and_then(|x| x.parse().ok()).unwrap_or(120), SeqCst);     // watchdog: <id> <threads> <iters> <seed> <slow-us> [<deadline-s>]
         let (st, o) = util::fork_run(|| one(&l));
         util::emit(&o);
         util::emit(&format!("{id} CHILD {st}\n"));
